@@ -91,7 +91,9 @@ def observe(m, lay):
             rect = rect + rect
         base = fn.range.ranges[0]
         st = {'rect': list(rect), 'missing': sorted(fn.missing), 'cellIn': [], 'blockIn': [], 'phIn': [],
-              'self': [], 'outCells': [], 'outBlocks': []}
+              'self': [], 'outCells': [], 'outBlocks': [],
+              'inv': any(isinstance(n2['function'], InvRangesAssembler) and n2['function'].assembler is fn
+                         for n2 in m.dsp.function_nodes.values())}
         for name, idx in fn.inputs.items():
             if name is sh.SELF:
                 st['self'] = sorted(parse_pos(x) for x in idx)
@@ -131,7 +133,8 @@ def canon_req(q):
             'phIn': sorted(tuple(x) for x in q['phIn']),
             'self': sorted(tuple(x) for x in q['self']),
             'outCells': sorted(tuple(x) for x in q['outCells']),
-            'outBlocks': sorted(list(x) for x in q['outBlocks'])}
+            'outBlocks': sorted(list(x) for x in q['outBlocks']),
+            'inv': bool(q['inv'])}
 
 
 def layout_key(o):
@@ -217,6 +220,25 @@ def run_layout(item):
             if not same:
                 problems.append({'kind': 'value', 'rect': rect_name(r), 'observed': repr(arr)[:200],
                                  'expected': repr(want)[:200]})
+        # a value supplied through a requested rectangle reaches the populated (constant)
+        # cells inside it and the blanks that got no node of their own before (Assemble:
+        # outCells / missing); blanks with an earlier node are the recorded C07 finding
+        pop = {tuple(p) for p in lay['pop']}
+        for q in lay['req']:
+            r = q['rect']
+            cs = cells_of(r)
+            if len(cs) == 1 or not (set(cs) & pop):
+                continue
+            rows = [[float(1000 + 10 * c + qq) for c in range(r[0], r[2] + 1)] for qq in range(r[1], r[3] + 1)]
+            sol2 = m.calculate(inputs={(Q + rect_name(r)).upper(): rows})
+            for p_ in sorted(set(cs) & pop):
+                got = sol2.get((Q + a1(p_)).upper())
+                want = float(1000 + 10 * p_[0] + p_[1])
+                val = got.value.tolist()[0][0] if got is not None else None
+                if val != want:
+                    problems.append({'kind': 'supply', 'rect': rect_name(r),
+                                     'what': 'cell %s shows %r after %r was supplied through %s'
+                                             % (a1(p_), val, want, rect_name(r))})
     except BaseException as ex:  # noqa
         if isinstance(ex, (KeyboardInterrupt, SystemExit)):
             raise
